@@ -80,6 +80,14 @@ theorem C09_prefixed_scoped (fs : Str → FsRes) (s : St) (n v : Str) :
     (step fs s (.prefixed n v)).1 = s ∧ childSees s (step fs s (.prefixed n v)).2.2 n = some v := by
   simp [step, childSees, lookup]
 
+/-- an assignment prefix never outlives its line, whether the word after it names a program or a shell function: every later
+expansion and every later child sees exactly what it saw before -/
+theorem C09_prefix_leaves_no_trace (fs : Str → FsRes) (s : St) (n v m : Str) :
+    (step fs s (.prefixedFn n v)).1 = s ∧ (step fs s (.prefixedFn n v)).2.2 = [] ∧
+    expandsTo (step fs s (.prefixed n v)).1 m = expandsTo s m ∧ childSees (step fs s (.prefixed n v)).1 [] m = childSees s [] m ∧
+    expandsTo (step fs s (.prefixedFn n v)).1 m = expandsTo s m ∧ childSees (step fs s (.prefixedFn n v)).1 [] m = childSees s [] m := by
+  simp [step]
+
 theorem C09_export_seen_everywhere (fs : Str → FsRes) (s : St) (n v : Str) :
     let s' := (step fs s (.export n v)).1
     expandsTo s' n = v ∧ childSees s' [] n = some v := by
